@@ -13,7 +13,10 @@ engine with) then really ignores case:
 * pattern side — the case of a literal, and of the endpoints of a class range, may be changed
   without changing any result, also inside negated classes and subtractions
   (`pred_one_flip_pattern`, `pred_notone_flip_pattern`, `cls_range_flip_pattern`,
-  `m_pattern_flip_invariant`, `find_pattern_flip_invariant`).
+  `m_pattern_flip_invariant`, `find_pattern_flip_invariant`); the last section defines the re-cased
+  pattern `Spec.recase e ch p` for an arbitrary choice `ch` of letters and proves, with no `PatTestEq`
+  hypothesis, `recase_patTestEq`, `m_recase_invariant`, `find_recase_invariant`,
+  `find_recase_and_flip` under the decidable range condition `RecaseOK`.
 
 The only facts about the oracle tables that are used are collected in `Spec.FoldOK`: the partner
 relation is an involution, `\b`'s word test agrees on partners, `'\n'` has no partner.  Closure of
@@ -22,6 +25,7 @@ or its partner is in the positive part.  `FoldOK` is implied by the executable c
 `Spec.foldCheck` on the finite tables (`foldOK_of_foldCheck`).
 -/
 import RegexVerif.Lemmas.SpecFlip
+import RegexVerif.Lemmas.Recase
 
 namespace RegexVerif.Props.C20
 open RegexVerif RegexVerif.Spec RegexVerif.Spec.FlipDemo
@@ -181,5 +185,186 @@ theorem find_flip_both (e : Env) (hf : FoldOK e) (t' : List Nat) (ht : SameUpToC
 
 example : find { demoEnv demoText with text := demoText' } demoPat' false 0 = find (demoEnv demoText) demoPat false 0 :=
   find_flip_both _ (demo_foldOK _) _ demo_same _ _ (by decide) (demo_patTestEq _) false 0
+
+/-! ### pattern side, closed: the re-casing function (session 4)
+
+`Spec.recase e ch p` (Model/Recase.lean) writes the letters of the case-insensitive tests of `p` in the
+other case wherever the choice function `ch` says so: ci literals, ci negated literals, and the lower
+and upper endpoint of every range of every ci class *independently* (single members are ranges
+`(c, c)`), in negated classes and on both sides of subtractions.  `ch` is indexed by the path to the
+letter, so every leaf-by-leaf re-casing of `p` is `recase e ch p` for some `ch`.  The theorems below
+have no `PatTestEq` hypothesis; their side condition `RecaseOK e ch p` is decidable and concerns
+ranges only: a range whose endpoints were changed must have kept its closure under case partners
+(`Spec.rangeCiEq`).  That condition is exact (`range_recase_exact`), always holds for literals and
+single class members (`member_recase_ok`) and for a range moved as a whole to the range of its
+partners when the partner map is a shift on it (`range_recase_shift_up/down`: `[a-z]` ↦ `[A-Z]`), and
+fails for mixed re-casings such as `[a-c]` ↦ `[A-c]` (decided counter-example below). -/
+
+open RegexVerif.Spec.RecaseDemo in
+/-- the examples use `Spec.RecaseDemo` (end of Lemmas/Recase.lean): pairs a↔A b↔B c↔C x↔X;
+    `(?i)[a-c-[b]]x` re-cased everywhere is `(?i)[A-C-[B]]X`, and the side condition holds -/
+example : recase (env tAx) all pat = patUpper ∧ pat ≠ patUpper ∧ RecaseOK (env tAx) all pat ∧
+    recase (env tNeg) all negPat = negPatUpper ∧ RecaseOK (env tNeg) all negPat :=
+  ⟨rfl, by simp [pat, patUpper], by decide, rfl, by decide⟩
+
+/-- **The range condition is exact.**  `rangeCiEq e a b` (every rune of either range is case-equal to a
+    rune of the other) holds if and only if the ci classes `[a]` and `[b]` — or `[^a]` and `[^b]` —
+    accept the same runes. -/
+theorem range_recase_exact (e : Env) (hf : FoldOK e) (neg : Bool) (a b : Nat × Nat) :
+    rangeCiEq e a b = true ↔ ∀ r, (Cls.base neg [b] []).mem e true r = (Cls.base neg [a] []).mem e true r := by
+  constructor
+  · intro h r
+    rw [cls_single_mem, cls_single_mem, rangeCiEq_sound hf h r]
+  · intro h
+    apply rangeCiEq_complete
+    intro r
+    have := h r
+    rw [cls_single_mem, cls_single_mem] at this
+    revert this
+    cases ciRanges e [b] r <;> cases ciRanges e [a] r <;> cases neg <;> simp
+
+open RegexVerif.Spec.RecaseDemo in
+/-- the boundary: `[a-c]` ↦ `[A-C]` passes, the mixed `[a-c]` ↦ `[A-c]` does not (`[A-c]` contains `_`,
+    `D`, …), and the re-cased pattern `(?i)[A-c-[b]]x` then really finds a different result on "_x" -/
+example : rangeCiEq (env []) (97, 99) (65, 67) = true ∧ rangeCiEq (env []) (97, 99) (65, 99) = false ∧
+    recase (env tUx) loOnly pat = patMixed ∧ ¬ RecaseOK (env tUx) loOnly pat ∧
+    find (env tUx) pat false 0 = none ∧
+    find (env tUx) patMixed false 0 = some { pos := 2, caps := [(0, 0, 2)] } :=
+  ⟨by decide, by decide, rfl, by decide, by decide, by decide⟩
+
+/-- **Literals and single class members may always be re-cased**: the range `(c, c)` with both
+    endpoints re-cased by the same bit passes the range check, whatever the tables (`FoldOK`). -/
+theorem member_recase_ok (e : Env) (hf : FoldOK e) (b : Bool) (c : Nat) :
+    rangeOK e (c, c) (recaseRune e b c, recaseRune e b c) = true :=
+  rangeOK_member hf b c
+
+example : recaseRune (RecaseDemo.env []) true 98 = 66 ∧ recaseRune (RecaseDemo.env []) true 95 = 95 := ⟨by decide, by decide⟩
+
+/-- **Patterns without proper ranges need no table condition**: when every class range of `p` is a
+    single member `(c, c)` (`Pat.onlyMembers`) and the choice re-cases the two endpoints of a range
+    together (`Choice.Paired`), `RecaseOK` holds by `FoldOK` alone — so for literals, negated literals
+    and classes of single members (negated, subtracted) every such re-casing preserves all results. -/
+theorem recaseOK_of_members (e : Env) (hf : FoldOK e) (ch : Choice) (p : Pat) (hch : ch.Paired)
+    (hp : p.onlyMembers = true) : RecaseOK e ch p :=
+  recaseOK_members hf p hch hp
+
+/-- `(?i)a[^bc-[c]]` with all letters re-cased -/
+example : RecaseDemo.all.Paired ∧
+    (Pat.seq (.chr (.one 97 true)) (.chr (.set (.diff (.base true [(98, 98), (99, 99)] []) (.base false [(99, 99)] [])) true))).onlyMembers = true ∧
+    RecaseDemo.pat.onlyMembers = false :=
+  ⟨fun _ _ => rfl, rfl, rfl⟩
+
+/-- **A range re-cased as a whole, upper to lower** (`[A-Z]` ↦ `[a-z]`): when every rune `x` of
+    `lo … hi` has the case partner `x + d`, re-casing both endpoints gives `lo+d … hi+d` and passes. -/
+theorem range_recase_shift_up (e : Env) (hf : FoldOK e) (lo hi d : Nat)
+    (h : ∀ x, lo ≤ x → x ≤ hi → e.partner x = some (x + d)) (hlh : lo ≤ hi) :
+    (recaseRune e true lo, recaseRune e true hi) = (lo + d, hi + d) ∧
+    rangeOK e (lo, hi) (recaseRune e true lo, recaseRune e true hi) = true := by
+  have h1 : recaseRune e true lo = lo + d := by simp [recaseRune, h lo (Nat.le_refl _) hlh]
+  have h2 : recaseRune e true hi = hi + d := by simp [recaseRune, h hi hlh (Nat.le_refl _)]
+  rw [h1, h2]
+  refine ⟨rfl, ?_⟩
+  unfold rangeOK
+  rw [rangeCiEq_shift_up hf h]
+  exact Bool.or_true _
+
+/-- **A range re-cased as a whole, lower to upper** (`[a-z]` ↦ `[A-Z]`): every rune `x` of `lo … hi`
+    has the case partner `x - d`. -/
+theorem range_recase_shift_down (e : Env) (hf : FoldOK e) (lo hi d : Nat) (hd : d ≤ lo)
+    (h : ∀ x, lo ≤ x → x ≤ hi → e.partner x = some (x - d)) (hlh : lo ≤ hi) :
+    (recaseRune e true lo, recaseRune e true hi) = (lo - d, hi - d) ∧
+    rangeOK e (lo, hi) (recaseRune e true lo, recaseRune e true hi) = true := by
+  have h1 : recaseRune e true lo = lo - d := by simp [recaseRune, h lo (Nat.le_refl _) hlh]
+  have h2 : recaseRune e true hi = hi - d := by simp [recaseRune, h hi hlh (Nat.le_refl _)]
+  rw [h1, h2]
+  refine ⟨rfl, ?_⟩
+  unfold rangeOK
+  rw [rangeCiEq_shift_down hf hd hlh h]
+  exact Bool.or_true _
+
+/-- the demo tables shift a-c down by 32 and A-C up by 32 -/
+example : (∀ x, 97 ≤ x → x ≤ 99 → (RecaseDemo.env []).partner x = some (x - 32)) ∧
+    (∀ x, 65 ≤ x → x ≤ 67 → (RecaseDemo.env []).partner x = some (x + 32)) := by
+  constructor
+  · intro x h1 h2
+    have hx : x = 97 ∨ x = 98 ∨ x = 99 := by omega
+    rcases hx with rfl | rfl | rfl <;> rfl
+  · intro x h1 h2
+    have hx : x = 65 ∨ x = 66 ∨ x = 67 := by omega
+    rcases hx with rfl | rfl | rfl <;> rfl
+
+/-- **A re-cased pattern has the same character tests.**  If the tables are closed under case
+    partners and every range that `ch` changes passes the range check, then `recase e ch p` has the
+    shape of `p` and each of its character tests accepts exactly the runes the corresponding test of
+    `p` accepts — for ci literals, ci negated literals, ci classes with negation and subtraction. -/
+theorem recase_patTestEq (e : Env) (hf : FoldOK e) (ch : Choice) (p : Pat) (hok : RecaseOK e ch p) :
+    PatTestEq e p (recase e ch p) :=
+  recase_patTestEq' hf p ch hok
+
+/-- **Re-casing the pattern changes no list of successes** (no `PatTestEq` hypothesis): for every
+    direction and start state, the ordered list of all successes of the re-cased pattern — end
+    positions and capture logs — is that of the original pattern. -/
+theorem m_recase_invariant (e : Env) (hf : FoldOK e) (ch : Choice) (p : Pat) (hok : RecaseOK e ch p) :
+    ∀ (rtl : Bool) (st : St), m e (recase e ch p) rtl st = m e p rtl st :=
+  m_congr_tests (recase_patTestEq' hf p ch hok)
+
+open RegexVerif.Spec.RecaseDemo in
+example : FoldOK (env tAx) ∧ RecaseOK (env tAx) all pat ∧
+    m (env tAx) pat false { pos := 0, caps := [] } = [{ pos := 2, caps := [] }] ∧
+    m (env tAx) (recase (env tAx) all pat) false { pos := 0, caps := [] } = [{ pos := 2, caps := [] }] ∧
+    m (env tbx) pat false { pos := 0, caps := [] } = [] ∧
+    m (env tbx) (recase (env tbx) all pat) false { pos := 0, caps := [] } = [] :=
+  ⟨foldOK _, by decide, by decide, by decide, by decide, by decide⟩
+
+/-- **Re-casing the pattern changes no match**: the match found from any start position in either
+    direction (`none`, or end position and capture log) is the same for `(?i)[a-c-[b]]x` and
+    `(?i)[A-C-[B]]X`, `(?i)[^a-b]+` and `(?i)[^A-B]+`, …  For the Go engine through leg S-ci. -/
+theorem find_recase_invariant (e : Env) (hf : FoldOK e) (ch : Choice) (p : Pat) (hok : RecaseOK e ch p)
+    (rtl : Bool) (start : Nat) :
+    find e (recase e ch p) rtl start = find e p rtl start :=
+  find_congr_tests (recase_patTestEq' hf p ch hok) rtl start
+
+open RegexVerif.Spec.RecaseDemo in
+example : find (env tAx) pat false 0 = some { pos := 2, caps := [(0, 0, 2)] } ∧
+    find (env tAx) patUpper false 0 = some { pos := 2, caps := [(0, 0, 2)] } ∧
+    find (env tbx) pat false 0 = none ∧ find (env tbx) patUpper false 0 = none ∧
+    -- negated class: "xCaB", `(?i)[^a-b]+` and `(?i)[^A-B]+` both find "xC"
+    find (env tNeg) negPat false 0 = some { pos := 2, caps := [(0, 0, 2)] } ∧
+    find (env tNeg) (recase (env tNeg) all negPat) false 0 = some { pos := 2, caps := [(0, 0, 2)] } ∧
+    find (env tNeg) negPat true 4 = some { pos := 0, caps := [(0, 0, 2)] } ∧
+    find (env tNeg) negPatUpper true 4 = some { pos := 0, caps := [(0, 0, 2)] } :=
+  ⟨by decide, by decide, by decide, by decide, by decide, by decide, by decide, by decide⟩
+
+/-- **Pattern re-cased and input flipped**: a case-insensitive search finds the same match when the
+    letters of the pattern are re-cased by `ch` *and* the case of input letters is changed. -/
+theorem find_recase_and_flip (e : Env) (hf : FoldOK e) (t' : List Nat) (ht : SameUpToCase e e.text t')
+    (ch : Choice) (p : Pat) (hp : AllCi p) (hok : RecaseOK e ch p) (rtl : Bool) (start : Nat) :
+    find { e with text := t' } (recase e ch p) rtl start = find e p rtl start :=
+  find_flip_both e hf t' ht p (recase e ch p) hp (recase_patTestEq' hf p ch hok) rtl start
+
+open RegexVerif.Spec.RecaseDemo in
+example : SameUpToCase (env tNeg) (env tNeg).text tNeg' ∧ AllCi negPat ∧ AllCi pat ∧
+    find { env tNeg with text := tNeg' } (recase (env tNeg) all negPat) false 0 = some { pos := 2, caps := [(0, 0, 2)] } ∧
+    find (env tNeg) negPat false 0 = some { pos := 2, caps := [(0, 0, 2)] } :=
+  ⟨.cons (by decide) (.cons (by decide) (.cons (by decide) (.cons (by decide) .nil))), by decide, by decide,
+   by decide, by decide⟩
+
+/-- **`recase` covers every re-casing.**  `Recased e p p'` (Lemmas/Recase.lean) is the choice-free
+    description: `p'` has the shape of `p` and every letter of a case-insensitive test (literal,
+    negated literal, each endpoint of each class range, in negated classes and subtractions too) is,
+    each occurrence on its own, the original rune or its simple case partner.  These are exactly
+    the patterns `recase e ch p`, so the theorems above, quantified over all `ch`, speak about all
+    re-casings of the pattern. -/
+theorem recased_iff_recase (e : Env) (p p' : Pat) : Recased e p p' ↔ ∃ ch : Choice, p' = recase e ch p :=
+  recased_iff_recase' e p p'
+
+open RegexVerif.Spec.RecaseDemo in
+/-- both the all-upper-case spelling and the mixed one are re-casings of `(?i)[a-c-[b]]x`; only the
+    first passes `RecaseOK` -/
+example : Recased (env []) pat patUpper ∧ Recased (env []) pat patMixed ∧ ¬ Recased (env []) pat negPat :=
+  ⟨(recased_iff_recase _ _ _).mpr ⟨all, rfl⟩, (recased_iff_recase _ _ _).mpr ⟨loOnly, rfl⟩,
+   fun h => by cases h⟩
+
+/-! ### end of the re-casing section -/
 
 end RegexVerif.Props.C20
